@@ -114,7 +114,9 @@ def _scenario(draw, tier):
                                               long_lat_p=draw(st.sampled_from([0.0, 0.05])), pipe_cap=None,
                                               speed_spread=draw(st.sampled_from([1.0, 4.0])),
                                               # coarse clock: a whole swap cycle can fit between two equal readings
-                                              clock_res=draw(st.sampled_from([0.0, 0.0, 0.0156]))))
+                                              clock_res=draw(st.sampled_from([0.0, 0.0, 0.0156])),
+                                              clock_jumps=[[draw(st.integers(1, 12)), draw(st.sampled_from([0.3, 0.9, 5.0]))]]
+                                              if draw(st.integers(0, 2)) == 0 else []))
 
 
 def scenarios(tier):
